@@ -18,8 +18,9 @@ package vgiotel
 //@   ensures [local_token_ret2] typeof(result1) == *spanToken && as(result1, "*spanToken").span == span
 
 // OnDispatchEnd: a recording span is ended, exactly once, after its status was set — Error exactly
-// when the call failed, Ok otherwise; the request counter is incremented by one with the matching
-// status whenever metrics are on.
+// when the call failed (codes.Error = 1), Ok (codes.Ok = 2) otherwise; the request counter — the
+// hook's own — is incremented by one, once, with the matching status attribute, whenever metrics
+// are on and a counter exists, and never when they are off.
 //
 //@ func (*otelHook).OnDispatchEnd
 //@   property C43
@@ -27,10 +28,24 @@ package vgiotel
 //@   pathflag recording
 //@   pathflag statusSet
 //@   at call trace.Span.IsRecording setflag recording result
-//@   at call trace.Span.SetStatus#1 assert [error] err != nil && arg0 == st.span
-//@   at call trace.Span.SetStatus#2 assert [ok] err == nil && arg0 == st.span
+//@   at call trace.Span.SetStatus#1 assert [error] err != nil && arg0 == st.span && arg1 == 1
+//@   at call trace.Span.SetStatus#2 assert [ok] err == nil && arg0 == st.span && arg1 == 2
 //@   at call trace.Span.SetStatus mark statusSet
 //@   at call trace.Span.End assert [once] !ended && statusSet && recording && arg0 == st.span
 //@   at call trace.Span.End mark ended
+//@   pathflag counted
+//@   pathflag metricsOn
+//@   pathflag metricsRead
+//@   at load OtelConfig.EnableMetrics mark metricsRead
+//@   at load OtelConfig.EnableMetrics setflag metricsOn value
 //@   at call metric.Int64Counter.Add assert [counted] arg2 == 1 && status == (err != nil ? "error" : "ok")
+//@   at call metric.Int64Counter.Add assert [countedonce] !counted && metricsOn && arg0 == h.requestCounter
+//@   at call metric.Int64Counter.Add mark counted
+//@   at call attribute.String#5 assert [statusattr] arg0 == "status" && arg1 == (err != nil ? "error" : "ok")
+//@   pathflag counterRead
+//@   pathflag haveCounter
+//@   at load otelHook.requestCounter mark counterRead
+//@   at load otelHook.requestCounter setflag haveCounter value != nil
+//@   at call trace.Span.IsRecording assert [countedfirst] metricsRead && (metricsOn ==> counterRead) && (metricsOn && haveCounter ==> counted)
 //@   ensures [local_endedifrecording] recording ==> ended
+//@   ensures [local_countedifon] typeof(token) == *spanToken ==> metricsRead && (metricsOn ==> counterRead) && (metricsOn && haveCounter ==> counted)
